@@ -75,7 +75,7 @@ func (p *pauseStore) PutChangeSet(a, b map[string][]byte) error {
 }
 
 func (p *pauseStore) Seek(rng storage.SeekRange, f func(k, v []byte) bool) {
-	if p.seekHold.Load() {
+	if p.seekHold.CompareAndSwap(true, false) { // one shot: later scans pass
 		p.seekAt <- struct{}{}
 		<-p.seekGo
 	}
@@ -131,6 +131,8 @@ func (w *world) addLayer(ps int, priv bool) *node {
 		n.pause = newPause(low.st)
 		n.d = dao.NewSimple(n.pause, false)
 	}
+	// the storage prefix byte of the case (0x70, or 0x71 as during state sync); GetPrivate inherits it
+	n.d.Version.StoragePrefix = storage.KeyPrefix(daoSP)
 	n.st = n.d.Store
 	w.nodes = append(w.nodes, n)
 	return n
